@@ -296,7 +296,7 @@ def diagnose(ref: BD.Program, text: str) -> list:
         for node in top.walk():
             if node.op in seen or node.op in ("paren",):
                 continue
-            if any(k.op in faulty or _has_faulty(k, faulty) for k in node.kids):
+            if any(_has_faulty(k, faulty) for k in node.kids):
                 continue  # judged through its smaller faulty part
             src = text[node.start : node.end]
             if "\n" in src or "/*" in src or "//" in src or "#" in src or '"' in src or src.count("'") > 2:
